@@ -82,7 +82,7 @@ def _scratch(ctx, prefix: str) -> pathlib.Path:
 _KEYS = ['a', 'b', 'c', 'd', 'k-1', 'x y', 'é']
 _SCALARS = [0, 1, -2, 3, 0.5, -1.25, 1000.0, True, False, '', 'a', 'b', 'x y', 'é', 'a"b', 'C:\\x', 'l1\nl2']
 _ELEMS = ['a', 'b', 'c', 'd', 'e', 1, 2, 3, {'n': 1}, {'n': 2}, {'m': 'a'}]
-_VIA = ['file', 'update', 'file', 'file-late', 'update', 'kwargs', 'pair', 'missing-file']
+_VIA = ['file', 'update', 'file', 'file-late', 'update', 'kwargs', 'pair', 'missing-file', 'file-again', 'file-rewrite']
 
 
 class Dice:
@@ -157,7 +157,19 @@ def build_config_spec(data: bytes):
     layers, prev = [], defaults
     for _ in range(nlayers):
         table = _dice_table(d, 2) if d.pick(4) == 0 else _dice_variant(d, prev if d.pick(2) else defaults, 2)
-        layers.append({'via': d.choice(_VIA), 'layout': d.choice(['sections', 'inline']), 'data': table})
+        layer = {'via': d.choice(_VIA), 'layout': d.choice(['sections', 'inline']), 'data': table}
+        if layer['via'] in ('file-again', 'file-rewrite'):
+            # the same source path once more: unchanged on top of what was layered in between, or with new content
+            earlier = [i for i, l in enumerate(layers) if l['via'] in ('file', 'file-late')]
+            if not earlier:
+                layer['via'] = 'file'
+            else:
+                layer['of'] = earlier[d.pick(len(earlier))]
+                if layer['via'] == 'file-again':  # whatever the path holds by now
+                    holder = [l for l in layers if l.get('of') == layer['of'] and l['via'] == 'file-rewrite'] or [layers[layer['of']]]
+                    layer['data'] = holder[-1]['data']
+                    layer['layout'] = holder[-1]['layout']
+        layers.append(layer)
         prev = table
     return {'defaults': defaults, 'layers': layers}
 
@@ -269,21 +281,26 @@ def apply_stack(spec, base: pathlib.Path):
         if layer['via'] in ('file', 'file-late'):
             write_layer(path, layer)
         files.append(path)
+    for i, layer in enumerate(layers):
+        if 'of' in layer:
+            files[i] = files[layer['of']]
     lead = 0
-    while lead < len(layers) and layers[lead]['via'] in ('file', 'missing-file'):
+    while lead < len(layers) and layers[lead]['via'] in ('file', 'missing-file', 'file-again'):
         lead += 1
     cfg = _conf.Config(spec['defaults'], *files[:lead])
     i = lead
     while i < len(layers):
         via = layers[i]['via']
-        if via in ('file', 'file-late', 'missing-file'):
+        if via == 'file-rewrite':
+            write_layer(files[i], layers[i])
+        if via in ('file', 'file-late', 'missing-file', 'file-again', 'file-rewrite'):
             cfg.read(files[i])
         elif via == 'update':
             cfg.update(layers[i]['data'])
         elif via == 'kwargs':
             cfg.update(**layers[i]['data'])
         elif via == 'pair':
-            if i + 1 < len(layers) and layers[i + 1]['via'] not in ('file', 'file-late', 'missing-file'):
+            if i + 1 < len(layers) and layers[i + 1]['via'] not in ('file', 'file-late', 'missing-file', 'file-again', 'file-rewrite'):
                 cfg.update(layers[i]['data'], **layers[i + 1]['data'])
                 i += 1
             else:
@@ -308,6 +325,7 @@ def check_config(ctx, spec):
     vias = {l['via'] for l in spec['layers']}
     classes = ['config'] + [f'config:{s}' for s in sorted(stats)]
     classes += ['config:file'] if vias & {'file', 'file-late'} else []
+    classes += ['config:same-path-again'] if vias & {'file-again', 'file-rewrite'} else []
     classes += ['config:kwargs'] if vias & {'kwargs', 'pair'} else []
     classes += ['config:missing-file'] if 'missing-file' in vias else []
     classes += ['config:layers>=3'] if len(effective) >= 3 else []
@@ -477,12 +495,16 @@ def provider_spec(draw, maxmods: int):
     ncoll = draw(st.integers(2, min(3, nmods))) if collide else 0
     aliases = list(draw(st.permutations(_ALIASES)))
     calias = aliases.pop() if collide else None
+    # forml's own providers all call their class just Runner / Feed / Registry: colliders may share the class name too
+    samename = collide and draw(st.booleans())
     modules, classes = [], []  # classes: flat list, a class refers to its base by flat index
     for mi in range(nmods):
         pkg = draw(st.sampled_from(['pa', 'pb']))
         if mi < ncoll:  # a collider: single concrete class straight under the root
             modules.append({'pkg': pkg, 'name': f'm{mi}', 'listed': True})
             classes.append({'name': f'P{len(classes)}', 'mod': mi, 'base': None, 'impl': 'concrete', 'alias': calias, 'nested': False})
+            if samename:
+                classes[-1]['py'] = 'Provider'
             continue
         hidden = draw(st.integers(0, 4)) == 0
         first = len(classes)
@@ -527,7 +549,7 @@ def _unimplemented(classes, idx) -> set:
 
 
 def _qualname(c) -> str:
-    return f"Holder_{c['name']}.{c['name']}" if c['nested'] else c['name']
+    return f"Holder_{c['name']}.{c['name']}" if c['nested'] else c.get('py', c['name'])
 
 
 def _modname(case: str, spec, mi: int) -> str:
@@ -562,7 +584,7 @@ def render_module(case: str, spec, mi: int) -> str:
         if c['nested']:
             lines += [f"class Holder_{c['name']}:"]
             ind = '    '
-        lines += [f"{ind}class {c['name']}({base}{kw}):", f"{ind}    MARK = {c['name']!r}"]
+        lines += [f"{ind}class {c['name'] if c['nested'] else c.get('py', c['name'])}({base}{kw}):", f"{ind}    MARK = {c['name']!r}"]
         if c['impl'] == 'abstract':
             lines += [f'{ind}    @abc.abstractmethod', f"{ind}    def am_{c['name']}(self):", f'{ind}        ...']
         elif c['impl'] in ('concrete', 'inner-abstract'):
@@ -790,7 +812,8 @@ def _judge_order(ctx, spec, case, order, res, colliders, tags) -> bool:
             kind = 'wrong-class' if got.startswith('cls:') else ('missing' if got == 'missing' else 'raises:' + got[4:])
             ctx.fail(spec, 'provider-lookup', kind, detail, tags + [via, kind_of_ref] + (['collision-set'] if colliders else []))
             return True
-        if not rec.get('same_object') or rec.get('mark') != exp[1].rsplit(':', 1)[1].rsplit('.', 1)[-1]:
+        marks = {f"{_modname(case, spec, c['mod'])}:{_qualname(c)}": c['name'] for c in classes}
+        if not rec.get('same_object') or rec.get('mark') != marks[exp[1]]:
             ctx.fail(spec, 'provider-lookup', 'not-the-module-class-object', detail + f" same_object={rec.get('same_object')} mark={rec.get('mark')}", tags + [via, kind_of_ref])
             return True
     return False
